@@ -39,6 +39,13 @@ def run(ctx):
     def nontrivial(c, a, b):
         return len(c) > 12
 
+    import time
+    t0 = [time.time()]
+
+    def lap(what):
+        vlib.log("[C28] %s: %.1fs" % (what, time.time() - t0[0]))
+        t0[0] = time.time()
+
     # ---------------- serializer: model vs wheel, wheel vs Rust node_to_bytes
     n = ctx.scale(400, 6000)
     trees = [gen.gen_tree(r, big=(i % 50 == 0), share=r.choice([0, 0, 0.2])) for i in range(n)]
@@ -56,6 +63,7 @@ def run(ctx):
             ctx.violation("pure-Python sexp_to_bytes differs from Rust node_to_bytes",
                           {"case": c[:2000], "family": "py28", "runner": "pywheel", "impl": p, "rust": q})
 
+    lap('serializer')
     # ---------------- decoder: model (current variant) vs wheel; wheel vs Rust node_from_stream
     bs = gen_py.padded_atoms(r, ctx.thorough)
     ctx.histogram("decoder_inputs", "zero-padded size fields")
@@ -84,6 +92,7 @@ def run(ctx):
         if not fsame:
             ctx.broken.append(("correspondence", "py28-defix:rust", "%s\n  model(fixed): %s\n  rust: %s" % (c[:600], fx, q)))
 
+    lap('decoder')
     # ---------------- integer casts: model vs wheel, wheel vs Rust new_number / number()
     ints = gen_py.boundary_ints() + [gen_py.gen_int(r) for _ in range(ctx.scale(600, 20000))]
     cases = ["i2b %d" % v for v in ints]
@@ -101,12 +110,14 @@ def run(ctx):
     for v in ints[:50]:
         ctx.histogram("int_bits", str(abs(v).bit_length() // 8 * 8))
 
+    lap('integers')
     # ---------------- curry / uncurry / curry hash
     cases = []
     specs = []
-    for i in range(ctx.scale(300, 5000)):
-        mod = gen_py.small_tree(r)
-        args = [gen_py.small_tree(r, r.choice([1, 1, 2, 5])) for _ in range(r.randrange(0, 5))]
+    for i in range(ctx.scale(120, 3000)):
+        # small atoms: the extracted SHA-256 of the model costs ~25 ms per KB
+        mod = _small(r, None)
+        args = [_small(r, r.choice([1, 1, 2, 5])) for _ in range(r.randrange(0, 5))]
         cases.append("curry %d %s %s" % (len(args), gen.tt(mod), " ".join(gen.tt(a) for a in args)))
         specs.append((_curry_spec(mod, args), mod, args))
         ctx.histogram("curry_args", str(len(args)))
@@ -136,6 +147,7 @@ def run(ctx):
         if bad:
             ctx.violation("; ".join(bad), {"case": c[:2000], "family": "py28", "runner": "pywheel", "impl": p, "rust": q})
 
+    lap('curry')
     # ---------------- running a curried program = running the module on the prepended environment
     cases = []
     for i in range(ctx.scale(300, 6000)):
@@ -158,6 +170,14 @@ def run(ctx):
         elif p != q:
             ctx.violation("wheel run of the module on the prepended environment differs from Rust run_program",
                           {"case": c[:2000], "family": "py28", "runner": "pywheel", "impl": p, "rust": q})
+    lap('curried runs')
+
+
+def _small(r, size):
+    while True:
+        t = gen_py.small_tree(r, size)
+        if _size(t) < 400:
+            return t
 
 
 def _curry_spec(mod, args):
